@@ -7,7 +7,7 @@ CHECKS = {
  "C01": dict(text="Lean theorem C01_eval_eq_spec_partial: for every well-formed table (any number of dimensions, any orders, any admissible knot vector incl. the minimum length and repeated knots, arbitrary padding values) and every point the lookup accepts, the model of ndsplineeval (margin loops, de Boor recurrence, re-indexing, block walk) equals the sum over ALL coefficients of coefficient x product of Cox-de Boor basis functions with the property's knot convention, over any linearly ordered field; C01_callOp for operator(). Tied to the code by running the same Lean definitions at IEEE double/float storage (bit-identical to ndsplineeval<double|float> on every case) and by comparing the C++ result with the exact rational specification inside a rounding envelope.",
              note="Trusted: Lean kernel + 3 standard axioms; hand-written model validated bit-for-bit each run; floating-point rounding is outside the theorem (envelope K*u*S assumed, worst measured ratio reported); one input class is excluded from the theorem and listed as known finding (x == knots[naxes] with an empty last interval; Lean witness C01_degenerate_upper_end).",
              technique="Lean 4 proof (induction over the de Boor recurrence, window/sum lemmas over dimensions) + bit-exact differential run of the model + exact-rational oracle", ref="4/C01"),
- "C02": dict(text="Lean theorems, over any linearly ordered field, any number of dimensions, any orders and admissible knot vectors: C02_mask_eval_eq_spec_partial (evaluation with any derivative bitmask = sum over all coefficients of coefficient x product of basis functions or their knot-difference derivative formula, one-sided convention of C01), C02_deriv_eval_eq_spec_partial (ndsplineeval_deriv with arbitrary per-dimension derivative orders = the iterated formula), C02_formula_is_derivative / C02_formula_is_iterated_derivative (the k-fold formula is Polynomial.derivative^[k] of the polynomial piece, repeated knots allowed), C02_gradient_rows (value-plus-gradient lanes are exactly the rows of plain / single-derivative evaluation for every arithmetic, so lane 0 is the plain value bit for bit), order-0 and above-order derivatives are zero. Tied to the code by running the same definitions at IEEE double/float storage (bit-identical to ndsplineeval, ndsplineeval_deriv, ndsplineeval_gradient on every case) and by comparing the C++ results with the exact rational derivative inside a rounding envelope.",
+ "C02": dict(text="Lean theorems, over any linearly ordered field, any number of dimensions, any orders and admissible knot vectors: C02_mask_eval_eq_spec_partial (evaluation with any derivative bitmask = sum over all coefficients of coefficient x product of basis functions or their knot-difference derivative formula, one-sided convention of C01), C02_deriv_eval_eq_spec_partial (ndsplineeval_deriv with arbitrary per-dimension derivative orders = the iterated formula), C02_formula_is_derivative / C02_formula_is_iterated_derivative (the k-fold formula is Polynomial.derivative^[k] of the polynomial piece, repeated knots allowed), C02_gradient_eq_mask_evals (for EVERY arithmetic, orders >= 1: ndsplineeval_gradient = [ndsplineeval(.,0), ndsplineeval(.,1<<0), ..., ndsplineeval(.,1<<(ndim-1))] operation for operation, hence bit for bit) and C02_gradient_eq_spec_partial (each lane = the specification sum), order-0 and above-order derivatives are zero. Tied to the code by running the same definitions at IEEE double/float storage (bit-identical to ndsplineeval, ndsplineeval_deriv, ndsplineeval_gradient on every case) and by comparing the C++ results with the exact rational derivative inside a rounding envelope.",
              note="Two input classes are excluded from the theorems and listed as known findings (degenerate upper end as in C01; derivative order >= 2 exactly at a knot >= knots[naxes], where the recursive routine is right-continuous). C02_formula_is_iterated_derivative shows the k-fold knot-difference formula is Polynomial.derivative^[k] of the piece for every k (non-decreasing knots). Rounding envelope assumed.",
              technique="Lean 4 proof (de Boor recurrence, derivative combination, product-rule derivative = knot-difference formula, window/sum lemmas) + bit-exact differential run + exact-rational oracle", ref="4/C02"),
  "C03": dict(text="Lean theorems: C03_dispatch_sound_templated/_generic about the dispatch table REGENERATED from bspline_eval.h on every run (for every list of per-dimension orders the routine pair selected by get_evaluator has template arguments describing exactly that table); C03_generic_loop_is_walk / C03_templated_loop_is_generic / C03_selected_core_eq_generic: the odometer loops as written (while/break of the generic core, for+tail of the templated cores, carry loop, incremental basis_tree update) equal the nested block walk for EVERY arithmetic, and the selected core has the table's chunk count, hence returns bit for bit what the generic core returns; gradient value/derivative lanes are operation-for-operation the rows of plain evaluation. Tied to the code by the translator plus a bitwise comparison, in the real binary, of generic members / evaluator objects / call operators / C interface / gradient lanes, built with and without PHOTOSPLINE_NO_EVAL_TEMPLATES, and of the generic path with the model.",
